@@ -48,4 +48,32 @@ bytes.Buffer growth overhead, hence the factor 8 instead of 3). -/
 def holds (o : Obs) : Bool :=
   o.parsed && decide (o.alloc ≤ (o.pkts + 1) * 8 * constants.MaxPacketBodySize)
 
+/-! ### The per-connection read loop (`adapter.BaseAdapter.connectionReadLoop`)
+
+Read a packet; a failed read ends the loop; a decoded packet is handed to the dispatcher, whose
+answer (error or reply) is ignored unless it switches the connection to stream mode or closes it
+(`disp … = false`), which also ends the loop.  Afterwards `cleanupConnection` closes the
+connection.  The transport is a finite stream without read deadlines (no timeout errors). -/
+
+/-- Number of packets handed to the dispatcher (fuel `f`). -/
+def loopRun (c : Codec) (disp : Nat → Bytes → Bool) : Nat → Bytes → Nat
+  | 0, _ => 0
+  | f + 1, bs =>
+    match parseFlat c bs with
+    | (.pkt t b, r) => if disp t b then 1 + loopRun c disp f r else 1
+    | (.fail _, _) => 0
+
+/-- Observation of a run of the real read loop on a finite stream. -/
+structure LoopObs where
+  pkts : Nat
+  returned : Bool
+  closed : Bool
+  leftover : Nat      -- connections the session manager still knows afterwards
+deriving DecidableEq, Repr
+
+/-- The loop returns, the connection is closed and forgotten, and no more packets were dispatched
+than the stream has bytes. -/
+def holdsLoop (stream : Bytes) (o : LoopObs) : Bool :=
+  o.returned && o.closed && o.leftover == 0 && decide (o.pkts ≤ stream.length)
+
 end Tunnox.C05
